@@ -82,7 +82,7 @@ def build_lib(outdir, name, cc, extra, incdir, prefix=None, rename_sections=Fals
     with open(amb, "w") as f:
         for fn in ("time", "clock", "clock_gettime", "gettimeofday", "rand", "random", "srand", "srandom", "rand_r",
                    "getenv", "getpid", "sleep", "usleep", "nanosleep", "sched_yield", "pthread_mutex_lock",
-                   "pthread_spin_lock"):
+                   "pthread_spin_lock", "strtok", "localtime", "gmtime", "asctime", "ctime", "strerror", "setlocale"):
             f.write("%s h3amb_%s\n" % (fn, fn))
     run(["objcopy", "--redefine-syms=" + amb, rel])
     if not prefix:
